@@ -428,7 +428,7 @@ def annotation_rules(repo):
             if not elt_ok:
                 out.append(unrecognised("R-DIMCONF", fi, role4 % which, "inner element `%s`" % unparse(inner_c.elt), comp))
             elif rng == bad_same:
-                out.append(violation("R-DIMCONF", fi, role4 % which,
+                out.append(named("R-DIMCONF", fi, role4 % which,
                                      "`%s` ranges over the container (annotations) while `%s[%s]` subscripts its elements (model outputs)" % (rng, ev, iv), comp,
                                      witness={"annotations": 1, "model_outputs": 2, "effect": "second output dropped; IndexError with 3 annotations"}))
             elif rng in good:
